@@ -34,7 +34,8 @@ def pick_tree(rng, P, allow_single=True):
         sh = rng.choice(shapes)
         k = 1 if sh == "S1" else len(SHAPES[sh])
         sizes = tuple(rng.choice(A) for _ in range(k))
-        if sum(sizes) > 0 and sum(sizes) < 1300000:
+        real = [s_ for s_, p_ in zip(sizes, SHAPES[sh] or [[]]) if not (p_ and p_[0] == "@ext")]
+        if sum(real) > 0 and sum(sizes) < 1300000:
             return sh, sizes
 
 
@@ -370,6 +371,10 @@ class C05(RecheckProp):
                 for P, tr in ((2 * M, ("S1", (3 * M,))), (2 * M, ("D2", (2 * M + 1, 5))), (M, ("D2", (M + 5, 3))), (4 * M, ("S1", (5 * M + 1,))),
                               (8 * M, ("D3", (M + 7, 9 * M + 3, 100 * 1024)))):
                     trees.append((v, src, P, tr))
+        for v in (1, 2, 3):             # payloads without a single byte
+            for src in SRCS[v]:
+                trees.append((v, src, B, ("D3", (0, 0, 0))))
+                trees.append((v, src, B, ("D2", (0, 0))))
         for v in (1, 2, 3):             # payload members reached through symbolic links
             for sh in ("DSYM", "DEXT", "DPAD"):
                 A = [a for a in alphabet(B) if a]
